@@ -513,3 +513,50 @@ V("C07", "totals-recreated", "fire", (COB, "        if entry.language not in sel
 V("C07", "aggregate-twice", "fire", (SCANCMD, "    codebase.aggregate()\n", "    codebase.aggregate()\n    codebase.aggregate()\n"), "profiles doubled", "aggregate-twice")
 V("C07", "reader-no-aggregate", "fire", (RR, "        codebase.aggregate()\n", ""), "re-read report has empty folder profiles", "no-aggregate")
 V("C07", "file-loc-len", "fire", (SCN, "    file_loc = sum([m.value for m in measurements])", "    file_loc = len(measurements)"), "file total is the number of functions", "_analyze_file/loc")
+
+# ------------------------------------------------------------------ C18
+SRT = "codelimit/common/ScanResultTable.py"
+LTD = "codelimit/common/LanguageTotalsDelta.py"
+STD = "codelimit/common/ScanTotalsDelta.py"
+V("C18", "text-previous-from-current", "fire", (SRT, "language_totals_previous = self._stp.language_total(language_totals.language)", "language_totals_previous = self._stc.language_total(language_totals.language)"),
+  "pre-fix: each language diffed against itself", "LanguageTotalsDelta-roles")
+V("C18", "md-delta-args-swapped", "fire", (FM, "ltd = LanguageTotalsDelta(language_totals, language_totals_previous)", "ltd = LanguageTotalsDelta(language_totals_previous, language_totals)"),
+  "delta reversed in Markdown only", "roles")
+V("C18", "delta-reversed", "fire", (LTD, "delta = total_loc - (self._language_totals_previous.loc if self._language_totals_previous else 0)",
+                                    "delta = (self._language_totals_previous.loc if self._language_totals_previous else 0) - total_loc"),
+  "previous minus current", "LanguageTotalsDelta.loc")
+V("C18", "delta-wrong-field", "fire", (LTD, "delta = total_functions - (self._language_totals_previous.functions if self._language_totals_previous else 0)",
+                                       "delta = total_functions - (self._language_totals_previous.files if self._language_totals_previous else 0)"),
+  "functions compared with files", "LanguageTotalsDelta.functions")
+V("C18", "total-delta-unsigned", "fire", (STD, "return f\"{total_loc:n}\" if delta == 0 else f\"{total_loc:n} ({delta:+n})\"", "return f\"{total_loc:n}\" if delta == 0 else f\"{total_loc:n} ({delta:n})\""),
+  "increase shown without sign", "ScanTotalsDelta.total_loc")
+V("C18", "total-delta-gt0", "fire", (STD, "return f\"{total_files:n}\" if delta == 0 else", "return f\"{total_files:n}\" if delta <= 0 else"), "decreases not annotated", "ScanTotalsDelta.total_files")
+V("C18", "row-cells-swapped", "fire", (SRT, "                    f\"{ltd.functions()}\",\n                    f\"{ltd.loc()}\",", "                    f\"{ltd.loc()}\",\n                    f\"{ltd.functions()}\","),
+  "diff rows show LOC under Functions", "ScanResultTable._populate/row")
+V("C18", "footer-wrong-total", "fire", (SRT, "self.add_column(\"\\u26A0\", f\"{self._stc.total_hard_to_maintain():n}\", justify=\"right\")", "self.add_column(\"\\u26A0\", f\"{self._stc.total_unmaintainable():n}\", justify=\"right\")"),
+  "footer of the hard-to-maintain column shows unmaintainable", "ScanResultTable/columns")
+V("C18", "languages-by-files", "fire", (STT, "self._languages_totals.values(), key=lambda x: x.loc, reverse=True", "self._languages_totals.values(), key=lambda x: x.files, reverse=True"),
+  "ordered by files", "languages_totals/order")
+V("C18", "findings-cut-11", "fire", (FT, "        functions = functions[:10]\n", "        functions = functions[:11]\n"), "eleven rows, 'N-10 more'", "format_text.print_findings")
+V("C18", "findings-more-minus-11", "fire", (FM, "{total_findings - 10} more rows", "{total_findings - 11} more rows"), "wrong remainder", "format_markdown.print_findings")
+V("C18", "findings-ge-10", "fire", (FT, "    if not full and total_findings > 10:\n        functions = functions[:10]", "    if not full and total_findings >= 10:\n        functions = functions[:10]"),
+  "claims '0 more rows'... inconsistent condition between cut and message", "format_text.print_findings")
+V("C18", "findings-local-k-silent", "silent", (FT, "    if not full and total_findings > 10:\n        functions = functions[:10]\n    for function in functions:",
+                                             "    limit = 10\n    if not full and total_findings > limit:\n        functions = functions[:limit]\n    for function in functions:"),
+  "cut-off constant named")
+
+# ------------------------------------------------------------------ C19
+V("C19", "easy-clamped", "fire", (REP, "easy = 100 - unmaintainable - hard_to_maintain - verbose", "easy = max(0, 100 - unmaintainable - hard_to_maintain - verbose)"),
+  "percentages stop summing to 100", "quality_profile_percentage/easy")
+V("C19", "text-verdict-ge20", "fire", (FT, "    elif hard_to_maintain > 20:", "    elif hard_to_maintain >= 20:"), "20 % hard-to-maintain declared 'refactoring necessary' in text only", "format_text.print_summary")
+V("C19", "md-verdict-unm-gt1", "fire", (FM, "    if unmaintainable > 0:\n        console.print(f\":stop_sign:", "    if unmaintainable > 1:\n        console.print(f\":stop_sign:"), "1 % unmaintainable tolerated", "format_markdown.print_summary")
+V("C19", "md-verdict-wrong-percentage", "fire", (FM, "console.print(f\":warning: {hard_to_maintain}% of the functions are hard to maintain", "console.print(f\":warning: {unmaintainable}% of the functions are hard to maintain"),
+  "message shows another category's percentage", "format_markdown.print_summary")
+V("C19", "division-unguarded", "fire", (REP, "        verbose = ceil((profile[1] / total) * 100 - 0.001) if total > 0 else 0", "        verbose = ceil((profile[1] / max(total, 0)) * 100 - 0.001)"),
+  "ZeroDivisionError for an empty codebase", "division")
+V("C19", "hard-from-cell-1", "fire", (REP, "hard_to_maintain = ceil((profile[2] / total) * 100 - 0.001)", "hard_to_maintain = ceil((profile[1] / total) * 100 - 0.001)"), "hard-to-maintain share taken from the verbose cell", "quality_profile_percentage/hard_to_maintain")
+V("C19", "round-instead-of-ceil", "fire", (REP, "unmaintainable = ceil((profile[3] / total) * 100 - 0.001)", "unmaintainable = round((profile[3] / total) * 100)"), "0.4 % unmaintainable shows as 0 %", "rounding")
+V("C19", "epsilon-too-large", "fire", (REP, "unmaintainable = ceil((profile[3] / total) * 100 - 0.001)", "unmaintainable = ceil((profile[3] / total) * 100 - 0.01)"), "shares up to 0.01 % vanish", "rounding")
+V("C19", "summary-table-drops-verbose", "fire", ("codelimit/common/SummaryTable.py", "easy_verbose_text = Text(f\"{easy + verbose:n}%\")", "easy_verbose_text = Text(f\"{easy:n}%\")"),
+  "shown triple no longer sums to 100", "displayed-triple")
+V("C19", "verdict-ge21-silent", "silent", (FT, "    elif hard_to_maintain > 20:", "    elif hard_to_maintain >= 21:"), "same integer region")
